@@ -35,6 +35,14 @@ pub struct Case {
     /// how KMeansParameters is constructed: 0 = default().with_k().with_max_iter(), 1 = reverse order, 2 = struct literal
     #[serde(default)]
     pub ctor: u8,
+    /// > 0: one more predict call with this many rows (the standard query rows repeated in a scrambled order):
+    /// block-wise code meets its block boundaries (1024, 4096, 65536) only with that many rows in one call
+    #[serde(default)]
+    pub many: usize,
+    /// 1 = the model also goes through a bincode round trip, 2 = through serde_json values, and the restored model is
+    /// asked the same queries: a restored model is a model
+    #[serde(default)]
+    pub roundtrip: u8,
 }
 
 pub struct C12;
@@ -270,7 +278,7 @@ struct StepLog {
 }
 
 impl C12 {
-    fn run_fit<T: RealNumber + Sum + Serialize>(&self, case: &Case, rep: &mut Report) {
+    fn run_fit<T: RealNumber + Sum + Serialize + serde::de::DeserializeOwned>(&self, case: &Case, rep: &mut Report) {
         let data = &case.data;
         let n = data.len();
         let p = data[0].len();
@@ -445,38 +453,76 @@ impl C12 {
                         // also the stale centroid of a cluster that ended up without rows)
                         q.extend(cents.iter().cloned());
                         let qm: DenseMatrix<T> = to_t_matrix(&q);
+                        let s2 = scale_of(&q, &cents);
+                        let tol2 = tol_for(case.f32m, s2, n, p);
+                        // every label must name a centroid at minimal distance from its row (src: row of q behind each label)
+                        let judge = |what: &str, rep: &mut Report, lab: &[f64], src: &[usize]| {
+                            if lab.len() != src.len() {
+                                rep.fail("shape", "predict", format!("{}: {}: predict returned {} labels for {} rows", ctx, what, lab.len(), src.len()));
+                                return;
+                            }
+                            for (i, l) in lab.iter().enumerate() {
+                                let row = &q[src[i]];
+                                if !(l.fract() == 0.0 && *l >= 0.0 && (*l as usize) < case.k) {
+                                    rep.fail("shape", "predict", format!("{}: {}: predict returned label {} for row {}", ctx, what, l, i));
+                                    break;
+                                }
+                                let mine = d2(row, &cents[*l as usize]);
+                                let best = cents.iter().map(|c| d2(row, c)).fold(f64::INFINITY, f64::min);
+                                let allowed = tol2.d2(mine, best);
+                                if allowed > 0.0 {
+                                    rep.max(if case.f32m { "predict_excess_over_allowed_f32" } else { "predict_excess_over_allowed_f64" }, (mine - best) / allowed);
+                                }
+                                if mine - best > allowed {
+                                    rep.fail(
+                                        "predict-not-nearest",
+                                        "predict",
+                                        format!("{}: {}: predict put row {} of {} ({:?}) into cluster {} at squared distance {:e}; the nearest centroid is at {:e}", ctx, what, i, src.len(), row, l, mine, best),
+                                    );
+                                    break;
+                                }
+                            }
+                        };
+                        let tof = |v: Vec<T>| -> Vec<f64> { v.iter().map(|x| x.to_f64().unwrap_or(f64::NAN)).collect() };
+                        let ident: Vec<usize> = (0..q.len()).collect();
                         match guarded(|| if case.ctor / 3 == 1 { Predictor::<DenseMatrix<T>, Vec<T>>::predict(&model, &qm) } else { model.predict(&qm) }) {
                             Err(msg) => rep.fail("panic", "predict", format!("{}: predict panicked: {}", ctx, msg)),
                             Ok(Err(e)) => rep.fail("predict-error", "predict", format!("{}: predict failed: {}", ctx, e)),
                             Ok(Ok(lab)) => {
-                                let lab: Vec<f64> = lab.iter().map(|v| v.to_f64().unwrap_or(f64::NAN)).collect();
+                                let lab = tof(lab);
                                 d.f64s(&lab);
-                                if lab.len() != q.len() {
-                                    rep.fail("shape", "predict", format!("{}: predict returned {} labels for {} rows", ctx, lab.len(), q.len()));
-                                } else {
-                                    let s2 = scale_of(&q, &cents);
-                                    let tol2 = tol_for(case.f32m, s2, n, p);
-                                    for (i, l) in lab.iter().enumerate() {
-                                        if !(l.fract() == 0.0 && *l >= 0.0 && (*l as usize) < case.k) {
-                                            rep.fail("shape", "predict", format!("{}: predict returned label {} for row {}", ctx, l, i));
-                                            break;
-                                        }
-                                        let mine = d2(&q[i], &cents[*l as usize]);
-                                        let best = cents.iter().map(|c| d2(&q[i], c)).fold(f64::INFINITY, f64::min);
-                                        let allowed = tol2.d2(mine, best);
-                                        if allowed > 0.0 {
-                                            rep.max(if case.f32m { "predict_excess_over_allowed_f32" } else { "predict_excess_over_allowed_f64" }, (mine - best) / allowed);
-                                        }
-                                        if mine - best > allowed {
-                                            rep.fail(
-                                                "predict-not-nearest",
-                                                "predict",
-                                                format!("{}: predict put row {:?} into cluster {} at squared distance {:e}; the nearest centroid is at {:e}", ctx, q[i], l, mine, best),
-                                            );
-                                            break;
-                                        }
-                                    }
-                                }
+                                judge("standard call", rep, &lab, &ident);
+                            }
+                        }
+                        if case.many > 0 && rep.violation.is_none() {
+                            let m = q.len();
+                            let stride = 1 + (case.tape.seed % 7) as usize;
+                            let off = (case.tape.seed / 7 % m as u64) as usize;
+                            let src: Vec<usize> = (0..case.many).map(|j| (j * stride + off + j / m) % m).collect();
+                            let big: Vec<Vec<f64>> = src.iter().map(|s| q[*s].clone()).collect();
+                            let bm: DenseMatrix<T> = to_t_matrix(&big);
+                            rep.count("fault.many-rows-in-one-call", 1);
+                            rep.count("steps.rows-in-many-row-calls", src.len() as u64);
+                            match guarded(|| model.predict(&bm)) {
+                                Err(msg) => rep.fail("panic", "predict", format!("{}: predict on {} rows panicked: {}", ctx, src.len(), msg)),
+                                Ok(Err(e)) => rep.fail("predict-error", "predict", format!("{}: predict on {} rows failed: {}", ctx, src.len(), e)),
+                                Ok(Ok(lab)) => judge(&format!("one call with {} rows", src.len()), rep, &tof(lab), &src),
+                            }
+                        }
+                        if case.roundtrip > 0 && rep.violation.is_none() {
+                            let restored: Result<KMeans<T>, String> = if case.roundtrip == 1 {
+                                bincode::serialize(&model).map_err(|e| e.to_string()).and_then(|b| bincode::deserialize(&b).map_err(|e| e.to_string()))
+                            } else {
+                                serde_json::to_value(&model).map_err(|e| e.to_string()).and_then(|v| serde_json::from_value(v).map_err(|e| e.to_string()))
+                            };
+                            rep.count("fault.model-restored-from-serialised-form", 1);
+                            match restored {
+                                Err(e) => rep.fail("restore-failed", "model", format!("{}: the fitted model does not survive serialisation: {}", ctx, e)),
+                                Ok(m2) => match guarded(|| m2.predict(&qm)) {
+                                    Err(msg) => rep.fail("panic", "predict", format!("{}: restored model: predict panicked: {}", ctx, msg)),
+                                    Ok(Err(e)) => rep.fail("predict-error", "predict", format!("{}: restored model: predict failed: {}", ctx, e)),
+                                    Ok(Ok(lab)) => judge("restored model", rep, &tof(lab), &ident),
+                                },
                             }
                         }
                     }
@@ -796,6 +842,8 @@ fn gen_case(batch: &str, _index: u64, seed: u64) -> Case {
             tape: TapeSpec::prng(seed).with_prefix(words),
             kind: format!("tiny#{}/forced-initialisation {:?}", di, targets),
             ctor: (_index % 6) as u8,
+            many: 0,
+            roundtrip: 0,
         };
     }
     let mut r = Xo::fork(seed, "workload");
@@ -827,7 +875,7 @@ fn gen_case(batch: &str, _index: u64, seed: u64) -> Case {
         let mut k = pr.usize_in(2, 4);
         ensure_distinct(&mut data, &mut k, false);
         let max_iter = *pr.pick(&[1usize, 2, 3, 10]);
-        return Case { mode: "fit".into(), data, k, max_iter, f32m: false, centroids: vec![], queries: vec![], tape: TapeSpec::prng(tape_seed), kind: "deep-nest/prng".into(), ctor: pr.below(6) as u8 };
+        return Case { mode: "fit".into(), data, k, max_iter, f32m: false, centroids: vec![], queries: vec![], tape: TapeSpec::prng(tape_seed), kind: "deep-nest/prng".into(), ctor: pr.below(6) as u8, many: 0, roundtrip: 0 };
     }
     if batch == "fit-tie-lattice" {
         // one or two coordinates on a zero-centred lattice with a step that is not a dyadic rational (0.1, 1/3, 0.7,
@@ -841,7 +889,7 @@ fn gen_case(batch: &str, _index: u64, seed: u64) -> Case {
         let mut data = data;
         let mut k = pr.usize_in(2, 3).min(n);
         ensure_distinct(&mut data, &mut k, false);
-        return Case { mode: "fit".into(), data, k, max_iter: 100, f32m: false, centroids: vec![], queries: vec![], tape: TapeSpec::prng(tape_seed), kind: "tie-lattice/prng".into(), ctor: pr.below(6) as u8 };
+        return Case { mode: "fit".into(), data, k, max_iter: 100, f32m: false, centroids: vec![], queries: vec![], tape: TapeSpec::prng(tape_seed), kind: "tie-lattice/prng".into(), ctor: pr.below(6) as u8, many: 0, roundtrip: 0 };
     }
     let n = if crowded { pr.usize_in(4, 12) } else if pr.chance(0.5) { pr.usize_in(2, 40) } else { pr.usize_in(2, 300) };
     let p = if crowded { pr.usize_in(1, 2) } else { pr.usize_in(1, 6) };
@@ -942,7 +990,7 @@ fn gen_case(batch: &str, _index: u64, seed: u64) -> Case {
                 }
             }
         }
-        return Case { mode: "direct".into(), data, k, max_iter: 1, f32m, centroids: cents, queries: vec![], tape: TapeSpec::prng(tape_seed), kind: format!("{}/{}", dname, cname), ctor: 0 };
+        return Case { mode: "direct".into(), data, k, max_iter: 1, f32m, centroids: cents, queries: vec![], tape: TapeSpec::prng(tape_seed), kind: format!("{}/{}", dname, cname), ctor: 0, many: 0, roundtrip: 0 };
     }
     ensure_distinct(&mut data, &mut k, f32m);
     let max_iter = if pr.chance(0.6) { *pr.pick(&[1usize, 1, 2, 2, 3, 5, 10, 30, 100, 100]) } else { pr.usize_in(1, 100) };
@@ -977,7 +1025,7 @@ fn gen_case(batch: &str, _index: u64, seed: u64) -> Case {
         _ => panic!("unknown batch {}", batch),
     }
     let ctor = pr.below(6) as u8;
-    Case { mode: "fit".into(), data, k, max_iter, f32m, centroids: vec![], queries, tape, kind, ctor }
+    Case { mode: "fit".into(), data, k, max_iter, f32m, centroids: vec![], queries, tape, kind, ctor, many: 0, roundtrip: 0 }
 }
 
 impl Property for C12 {
@@ -1001,7 +1049,14 @@ impl Property for C12 {
         ]
     }
     fn gen(&self, batch: &str, index: u64, seed: u64) -> Case {
-        gen_case(batch, index, seed)
+        let mut c = gen_case(batch, index, seed);
+        if c.mode == "fit" {
+            let mut r = Xo::fork(seed, "post");
+            // (rows x k distance evaluations per call: the largest sizes are rare)
+            c.many = if r.chance(0.004) { *r.pick(&[1030usize, 1030, 2060, 4100, 4100, 8200, 16_400, 65_600]) } else { 0 };
+            c.roundtrip = if r.chance(0.2) { 1 + r.below(2) as u8 } else { 0 };
+        }
+        c
     }
     fn run(&self, case: &Case) -> Report {
         let r = guarded(|| {
